@@ -247,6 +247,9 @@ Proof.
                       = Bool.eqb (act (t_ticks t) st) (is_add k)).
     { destruct k; cbn; destruct (act (t_ticks t) st); reflexivity. }
     rewrite Hskipeq.
+    assert (Hti : target_idle t = true).
+    { unfold target_idle. destruct Hidle as [Hbz Hq]. rewrite Hbz, Hq. reflexivity. }
+    rewrite Hti. cbn [andb].
     destruct (Bool.eqb (act (t_ticks t) st) (is_add k)) eqn:Hsk.
     + (* skip: the target already agrees *)
       apply eqb_prop in Hsk.
@@ -550,18 +553,35 @@ Proof.
   exists (cfg1 false []), w_dedup. vm_compute. repeat split; reflexivity.
 Qed.
 
-(* flat pipe, target busy with something else: the Add is queued, the Remove
-   is skipped on the target's current (still inactive) state *)
-Definition w_flat_busy : list step :=
-  [SHold; SSrc MAdd 0 false; SSrc MRem 0 false; SRel].
+(* flat pipe (with the idle test) on a busy target: the calls are made, but
+   the machine drops them the same two ways.  (1) the target's Add
+   transition is held in negotiation when the Remove arrives: early return *)
+Definition w_flat_early : list step :=
+  [SHold; SSrc MAdd 0 false; SRel; SSrc MRem 0 false; SRel].
 
-Lemma flat_busy_refuted_lemma :
+Lemma flat_busy_early_refuted_lemma :
   exists (c : pcfg) (steps : list step),
     p_flat c = true /\ p_addonly c = false /\
     forallb (step_wf (p_n c)) steps = true /\
+    c_lossy (run c steps) = (true, false) /\
     bad_end c steps false true.
 Proof.
-  exists (cfg1 true []), w_flat_busy. vm_compute. repeat split; reflexivity.
+  exists (cfg1 true [false; true]), w_flat_early. vm_compute. repeat split; reflexivity.
+Qed.
+
+(* (2) Add, Remove, Add queued behind an unrelated transition: the second
+   Add is a "duplicate" (flat pipes never pass args) *)
+Definition w_flat_dedup : list step :=
+  [SHold; SSrc MAdd 0 false; SSrc MRem 0 false; SSrc MAdd 0 false; SRel].
+
+Lemma flat_busy_dedup_refuted_lemma :
+  exists (c : pcfg) (steps : list step),
+    p_flat c = true /\ p_addonly c = false /\
+    forallb (step_wf (p_n c)) steps = true /\
+    c_lossy (run c steps) = (false, true) /\
+    bad_end c steps true false.
+Proof.
+  exists (cfg1 true []), w_flat_dedup. vm_compute. repeat split; reflexivity.
 Qed.
 
 (* flat pipe: the target's transition runs inside the source's handler *)
@@ -631,86 +651,47 @@ Qed.
 
 (* ------------------------------------------------------------ BindAny *)
 
-Lemma subset_refl : forall a, subset_b a a = true.
-Proof. induction a; simpl; auto. rewrite IHa. destruct a; auto. Qed.
-
-Lemma subset_nil_false : forall n b, subset_b (repeat false n) b = true.
-Proof.
-  induction n; intros; simpl; auto. destruct b; simpl; auto.
-Qed.
-
-Lemma bindany_superset_lemma : forall (n : nat) (ops : list aop),
-  subset_b (fst (any_run n ops)) (snd (any_run n ops)) = true.
-Proof.
-  intros n ops. unfold any_run.
-  assert (H : forall st, subset_b (fst st) (snd st) = true ->
-            subset_b (fst (fold_left (any_step n) ops st))
-                     (snd (fold_left (any_step n) ops st)) = true).
-  { induction ops; intros st Hst; simpl; auto.
-    apply IHops. unfold any_step, any_tgt. cbn [fst snd].
-    destruct (subset_b (any_src n (fst st) a) (snd st)) eqn:E; auto using subset_refl. }
-  apply H. cbn. apply subset_nil_false.
-Qed.
-
-Lemma subset_nth : forall a b, subset_b a b = true ->
-  forall i, nth i a false = true -> nth i b false = true.
-Proof.
-  induction a; intros b H i Hi.
-  - destruct i; discriminate.
-  - destruct b; simpl in H; apply andb_true_iff in H; destruct H as [H1 H2].
-    + destruct i; simpl in Hi.
-      * subst. discriminate.
-      * specialize (IHa [] H2 i Hi). destruct i; discriminate.
-    + destruct i; simpl in *.
-      * subst. auto.
-      * apply IHa; auto.
-Qed.
-
 Lemma any_src_length : forall n a o, length (any_src n a o) = n.
 Proof. intros. unfold any_src. rewrite map_length, seq_length. auto. Qed.
-
-Lemma nth_map_seq : forall {A} (f : nat -> A) n i d, i < n ->
-  nth i (map f (seq 0 n)) d = f i.
-Proof.
-  intros. rewrite nth_indep with (d' := f 0) by (rewrite map_length, seq_length; auto).
-  rewrite map_nth. rewrite seq_nth by auto. reflexivity.
-Qed.
-
-Lemma any_src_nth : forall n a o i, i < n ->
-  nth i (any_src n a o) false =
-  match o with
-  | AAdd l => nth i a false || mem_nat i l
-  | ARem l => nth i a false && negb (mem_nat i l)
-  | ASet l => mem_nat i l
-  end.
-Proof.
-  intros. unfold any_src. rewrite nth_map_seq by auto. reflexivity.
-Qed.
 
 Lemma sets_equal_refl : forall a, sets_equal a a = true.
 Proof. induction a; simpl; auto. rewrite IHa, eqb_reflx. auto. Qed.
 
-Lemma bindany_adds_only_equal_lemma : forall (n : nat) (ops : list aop),
-  adds_only ops = true ->
+Lemma subset_count_le : forall a b, subset_b a b = true -> count_true a <= count_true b.
+Proof.
+  unfold count_true. induction a; intros b H; simpl; [lia|].
+  destruct b as [|y s]; simpl in H; apply andb_true_iff in H; destruct H as [H1 H2].
+  - apply negb_true_iff in H1. subst a. simpl. apply (IHa [] H2).
+  - specialize (IHa s H2). destruct a, y; simpl in *; try discriminate; lia.
+Qed.
+
+(* same size and contained => equal *)
+Lemma subset_count_eq : forall a b, length a = length b ->
+  subset_b a b = true -> count_true b = count_true a -> a = b.
+Proof.
+  induction a; intros b Hl Hs Hc; destruct b as [|y s]; try discriminate; auto.
+  simpl in Hs. apply andb_true_iff in Hs. destruct Hs as [H1 H2].
+  pose proof (subset_count_le _ _ H2) as Hle.
+  unfold count_true in *. simpl in Hl.
+  destruct a, y; simpl in *; try discriminate.
+  - f_equal. apply IHa; auto; lia.
+  - lia.
+  - f_equal. apply IHa; auto; lia.
+Qed.
+
+Lemma bindany_equal_sets_lemma : forall (n : nat) (ops : list aop),
   sets_equal (fst (any_run n ops)) (snd (any_run n ops)) = true.
 Proof.
-  intros n ops Ha. unfold any_run.
+  intros n ops. unfold any_run.
   assert (H : forall st, fst st = snd st -> length (fst st) = n ->
             fst (fold_left (any_step n) ops st) = snd (fold_left (any_step n) ops st)).
   { induction ops; intros st Hst Hl; simpl; auto.
-    simpl in Ha. apply andb_true_iff in Ha. destruct Ha as [Ha1 Ha2].
-    apply IHops; auto.
+    apply IHops.
     - unfold any_step, any_tgt. cbn [fst snd].
-      destruct (subset_b (any_src n (fst st) a) (snd st)) eqn:E; auto.
-      destruct a as [l| |]; try discriminate.
-      rewrite <- Hst in *.
-      apply nth_ext with (d := false) (d' := false).
-      + rewrite any_src_length. auto.
-      + intros i Hi. rewrite any_src_length in Hi.
-        pose proof (subset_nth _ _ E i) as Hs.
-        rewrite any_src_nth in * by auto.
-        destruct (nth i (fst st) false); simpl in *; auto.
-        destruct (mem_nat i l); auto. symmetry. apply Hs. auto.
+      destruct (Nat.eqb (count_true (snd st)) (count_true (any_src n (fst st) a))
+                && subset_b (any_src n (fst st) a) (snd st)) eqn:E; auto.
+      apply andb_true_iff in E. destruct E as [E1 E2]. apply Nat.eqb_eq in E1.
+      apply subset_count_eq; auto. rewrite any_src_length. congruence.
     - unfold any_step. cbn [fst]. apply any_src_length. }
   rewrite H.
   - apply sets_equal_refl.
@@ -718,10 +699,11 @@ Proof.
   - cbn. apply repeat_length.
 Qed.
 
-Lemma bindany_equal_sets_refuted_lemma :
-  exists (n : nat) (ops : list aop),
-    sets_equal (fst (any_run n ops)) (snd (any_run n ops)) = false.
-Proof. exists 1, [AAdd [0]; ARem [0]]. vm_compute. reflexivity. Qed.
+(* deactivations do reach the target *)
+Example bindany_nonvacuous :
+  any_run 2 [AAdd [0; 1]; ASet [1]; ARem [1]] = ([false; false], [false; false]) /\
+  any_run 2 [AAdd [0; 1]; ASet [1]] = ([false; true], [false; true]).
+Proof. vm_compute. split; reflexivity. Qed.
 
 (* ------------------------------------------------------------ non-vacuity *)
 
@@ -786,7 +768,7 @@ Lemma reord_src_call : forall c s k i args,
 Proof.
   intros. unfold src_call. destruct (src_op c (c_src s) k i) as [src' ev].
   destruct ev; cbn; auto. destruct (p_flat c); cbn; auto.
-  destruct (match m with MAdd => _ | MRem => _ end); cbn; auto.
+  destruct (target_idle (c_tgt s) && _); cbn; auto.
   destruct (deliver c (c_tgt s) _); cbn; auto.
 Qed.
 
@@ -895,3 +877,484 @@ Proof.
   - rewrite H. destruct (c_blocked s); cbn; repeat split; eauto.
   - subst veto. destruct (c_blocked s); cbn; repeat split; eauto.
 Qed.
+
+(* ------------------------------------------------------------ any schedule: the target's EVENTUAL state *)
+
+(* what the target will be once its held transition and its queue are done *)
+Definition pend_list (t : tgt) : list mut :=
+  match t_pend t with Some m => [m] | None => [] end.
+
+Definition eventual (c : pcfg) (t : tgt) : list N :=
+  fold_left (apply_mut (p_multiT c)) (pend_list t ++ t_queue t) (t_ticks t).
+
+Record tgt_ok (n : nat) (t : tgt) : Prop := {
+  to_len : length (t_ticks t) = n;
+  to_st : Forall (fun m => m_st m < n) (pend_list t ++ t_queue t);
+  to_idle : t_busy t = false -> t_queue t = [] /\ t_pend t = None
+}.
+
+Lemma fold_muts_length : forall multi l ticks,
+  length (fold_left (apply_mut multi) l ticks) = length ticks.
+Proof. induction l; intros; simpl; auto. rewrite IHl, apply_mut_length. auto. Qed.
+
+Lemma fold_muts_act : forall multi l ticks j,
+  Forall (fun m => m_st m < length ticks) l ->
+  act (fold_left (apply_mut multi) l ticks) j =
+  match last_ev j l with Some k => is_add k | None => act ticks j end.
+Proof.
+  induction l; intros ticks j H; simpl; auto.
+  inversion H; subst. rewrite IHl by (rewrite apply_mut_length; auto).
+  destruct (last_ev j l); auto.
+  rewrite apply_mut_act by auto. rewrite Nat.eqb_sym.
+  destruct (Nat.eqb (m_st a) j); auto.
+Qed.
+
+Lemma last_ev_app2 : forall j a b,
+  last_ev j (a ++ b) = match last_ev j b with Some k => Some k | None => last_ev j a end.
+Proof.
+  induction a; intros; simpl.
+  - destruct (last_ev j b); auto.
+  - rewrite IHa. destruct (last_ev j b); auto.
+Qed.
+
+Lemma last_ev_none : forall j l, (forall x, In x l -> Nat.eqb (m_st x) j = false) ->
+  last_ev j l = None.
+Proof.
+  induction l; intros H; simpl; auto.
+  rewrite IHl by (intros; apply H; right; auto).
+  rewrite (H a) by (left; auto). auto.
+Qed.
+
+(* all queued mutations of state j have kind k, and there is one *)
+Lemma last_ev_all_kind : forall j k l,
+  (forall x, In x l -> Nat.eqb (m_st x) j = true -> m_kind x = k) ->
+  (exists x, In x l /\ Nat.eqb (m_st x) j = true) ->
+  last_ev j l = Some k.
+Proof.
+  induction l; intros Hall [x [Hin Hx]]; [destruct Hin|].
+  simpl. destruct (last_ev j l) eqn:E.
+  - destruct (existsb (fun x => Nat.eqb (m_st x) j) l) eqn:Ex.
+    + apply existsb_exists in Ex. destruct Ex as [y [Hy1 Hy2]].
+      apply IHl; [|eauto]. intros; apply Hall; auto. right; auto.
+    + rewrite last_ev_none in E; [discriminate|].
+      intros y Hy. destruct (Nat.eqb (m_st y) j) eqn:Ey; auto.
+      assert (existsb (fun x => Nat.eqb (m_st x) j) l = true)
+        by (apply existsb_exists; eauto). congruence.
+  - destruct Hin as [->|Hin].
+    + rewrite Hx. f_equal. apply Hall; auto. left; auto.
+    + destruct (Nat.eqb (m_st a) j) eqn:Ea.
+      * f_equal. apply Hall; auto. left; auto.
+      * exfalso.
+        assert (E' : @None mkind = Some k).
+        { apply IHl; [|eauto]. intros; apply Hall; auto. right; auto. }
+        discriminate.
+Qed.
+
+Lemma drain_spec : forall c q ticks ntx np n,
+  length ticks = n -> Forall (fun m => m_st m < n) q ->
+  tgt_ok n (drain c ticks q ntx np) /\
+  eventual c (drain c ticks q ntx np) = fold_left (apply_mut (p_multiT c)) q ticks.
+Proof.
+  induction q; intros ticks ntx np n Hl Hq; cbn [drain].
+  - split; [constructor; cbn; auto|reflexivity].
+  - inversion Hq; subst. destruct (parks_at c ntx).
+    + split; [constructor; cbn; auto; discriminate|reflexivity].
+    + apply IHq; auto. rewrite apply_mut_length. auto.
+Qed.
+
+Lemma eventual_act : forall c t n j, tgt_ok n t ->
+  act (eventual c t) j =
+  match last_ev j (pend_list t ++ t_queue t) with
+  | Some k => is_add k | None => act (t_ticks t) j end.
+Proof.
+  intros c t n j [Hl Hs _]. unfold eventual. apply fold_muts_act. rewrite Hl. auto.
+Qed.
+
+Lemma eventual_idle : forall c t, t_busy t = false -> t_queue t = [] -> t_pend t = None ->
+  eventual c t = t_ticks t.
+Proof. intros c t _ Hq Hp. unfold eventual, pend_list. rewrite Hq, Hp. reflexivity. Qed.
+
+(* a call reaches the target and is not one of the two lossy drops: the
+   eventual state of its state becomes what the call says *)
+Lemma deliver_eventual : forall c t m n,
+  tgt_ok n t -> m_st m < n ->
+  lossy_early t m = false -> lossy_dup c t m = false ->
+  tgt_ok n (fst (deliver c t m)) /\
+  forall j, act (eventual c (fst (deliver c t m))) j =
+            if Nat.eqb j (m_st m) then is_add (m_kind m) else act (eventual c t) j.
+Proof.
+  intros c t m n Hok Hm Hle Hld. pose proof Hok as [Hl Hs Hi].
+  unfold deliver. destruct (rem_early t m) eqn:Ere.
+  - (* early return *)
+    cbn [fst]. split; auto. intro j.
+    destruct (Nat.eqb_spec j (m_st m)) as [->|Hne]; auto.
+    unfold lossy_early in Hle. rewrite Ere in Hle. cbn [andb] in Hle.
+    unfold rem_early in Ere. repeat (apply andb_true_iff in Ere; destruct Ere as [Ere ?]).
+    destruct (m_kind m); [discriminate|]. cbn [is_add].
+    rewrite (eventual_act c t n) by auto.
+    destruct (t_queue t); [|discriminate]. rewrite app_nil_r.
+    unfold pend_list. destruct (t_pend t) as [p|]; cbn [last_ev].
+    + destruct (Nat.eqb (m_st p) (m_st m)) eqn:Ep.
+      * rewrite andb_true_r in Hle. destruct (m_kind p); [discriminate|reflexivity].
+      * apply negb_true_iff. auto.
+    + apply negb_true_iff. auto.
+  - destruct (dup_skip c t m) eqn:Eds.
+    + (* duplicate skip *)
+      cbn [fst]. split; auto. intro j.
+      destruct (Nat.eqb_spec j (m_st m)) as [->|Hne]; auto.
+      unfold lossy_dup in Hld. rewrite Ere, Eds in Hld. cbn [negb andb] in Hld.
+      unfold dup_skip in Eds. apply andb_true_iff in Eds. destruct Eds as [_ Edup].
+      unfold is_dup in Edup. apply existsb_exists in Edup. destruct Edup as [x [Hx1 Hx2]].
+      apply andb_true_iff in Hx2. destruct Hx2 as [Hx2 _].
+      apply andb_true_iff in Hx2. destruct Hx2 as [Hxk Hxs].
+      rewrite (eventual_act c t n) by auto. rewrite last_ev_app2.
+      rewrite (last_ev_all_kind (m_st m) (m_kind m) (t_queue t)); auto.
+      * intros y Hy Hys.
+        destruct (mkind_eqb (m_kind y) (m_kind m)) eqn:Ek.
+        -- destruct (m_kind y), (m_kind m); auto; discriminate.
+        -- assert (existsb (fun x => Nat.eqb (m_st x) (m_st m)
+                     && negb (mkind_eqb (m_kind x) (m_kind m))) (t_queue t) = true).
+           { apply existsb_exists. exists y. split; auto. rewrite Hys, Ek. reflexivity. }
+           congruence.
+      * exists x. split; auto.
+    + destruct (t_busy t) eqn:Eb; cbn [fst].
+      * (* queued *)
+        split.
+        -- constructor; cbn; auto; [|discriminate].
+           unfold pend_list in *. cbn [t_pend]. rewrite app_assoc.
+           apply Forall_app. split; auto.
+        -- intro j. unfold eventual, pend_list. cbn [t_pend t_queue t_ticks].
+           rewrite app_assoc, fold_left_app. cbn [fold_left].
+           rewrite apply_mut_act; [reflexivity|].
+           change (fold_left (apply_mut (p_multiT c))
+                     (match t_pend t with Some m0 => [m0] | None => [] end ++ t_queue t)
+                     (t_ticks t)) with (eventual c t).
+           unfold eventual. rewrite fold_muts_length. lia.
+      * (* idle: processed at once (or held) *)
+        destruct (Hi eq_refl) as [Hq Hp]. rewrite Hq. cbn [app].
+        destruct (drain_spec c [m] (t_ticks t) (t_ntx t) (t_nparks t) n) as [D1 D2]; auto.
+        split; auto. intro j. rewrite D2. cbn [fold_left].
+        rewrite (eventual_idle c t) by auto. apply apply_mut_act. lia.
+Qed.
+
+Lemma release_eventual : forall c t n, tgt_ok n t ->
+  tgt_ok n (release c t) /\ eventual c (release c t) = eventual c t.
+Proof.
+  intros c t n [Hl Hs Hi]. unfold release.
+  assert (Hq : Forall (fun m => m_st m < n) (t_queue t)).
+  { apply Forall_app in Hs. tauto. }
+  destruct (t_pend t) as [p|] eqn:Ep.
+  - destruct (drain_spec c (t_queue t) (apply_mut (p_multiT c) (t_ticks t) p)
+                (t_ntx t) (t_nparks t) n) as [D1 D2]; auto.
+    + rewrite apply_mut_length. auto.
+    + split; auto. rewrite D2. unfold eventual, pend_list. rewrite Ep. reflexivity.
+  - destruct (drain_spec c (t_queue t) (t_ticks t) (t_ntx t) (t_nparks t) n) as [D1 D2]; auto.
+    split; auto. rewrite D2. unfold eventual, pend_list. rewrite Ep. reflexivity.
+Qed.
+
+Lemma hold_eventual : forall c t n, tgt_ok n t -> t_busy t = false ->
+  tgt_ok n (hold t) /\ eventual c (hold t) = eventual c t.
+Proof.
+  intros c t n [Hl Hs Hi] Hb. destruct (Hi Hb) as [Hq Hp]. split.
+  - constructor; cbn; auto; try discriminate; rewrite ?Hq; auto.
+  - unfold eventual, pend_list. cbn. rewrite Hp. reflexivity.
+Qed.
+
+Definition lossy (s : cfg) : bool := fst (c_lossy s) || snd (c_lossy s).
+
+Lemma lossy_src_call_nonflat : forall c s k i args, p_flat c = false ->
+  c_lossy (src_call c s k i args) = c_lossy s.
+Proof.
+  intros. unfold src_call. destruct (src_op c (c_src s) k i) as [src' ev].
+  destruct ev; cbn; auto. rewrite H. reflexivity.
+Qed.
+
+Lemma lossy_sticky_src_call : forall c s k i args, lossy s = true ->
+  lossy (src_call c s k i args) = true.
+Proof.
+  intros c s k i args H. unfold src_call.
+  destruct (src_op c (c_src s) k i) as [src' ev]. destruct ev; cbn; auto.
+  destruct (p_flat c); cbn; auto.
+  destruct (target_idle (c_tgt s) && _); cbn; auto.
+  destruct (deliver c (c_tgt s) _). unfold lossy in *. cbn.
+  destruct (fst (c_lossy s)), (snd (c_lossy s)); try discriminate; cbn;
+    rewrite ?orb_true_r; auto.
+Qed.
+
+Lemma lossy_sticky : forall c s st, lossy s = true -> lossy (exec_step c s st) = true.
+Proof.
+  intros c s st H. destruct st; unfold exec_step.
+  - destruct (c_blocked s); [cbn; auto|]. apply lossy_sticky_src_call; auto.
+  - destruct (c_blocked s); cbn; auto.
+  - destruct (c_blocked s); [cbn; auto|].
+    destruct (veto_hits c s how k st); [cbn; auto|].
+    pose proof (lossy_sticky_src_call c s k st args H) as L. exact L.
+  - destruct (c_blocked s); [cbn; auto|]. destruct veto; [cbn; auto|].
+    apply lossy_sticky_src_call; auto.
+  - destruct (nth_error (c_bag s) i); auto.
+    destruct (deliver c (c_tgt s) m). unfold lossy in *. cbn.
+    destruct (fst (c_lossy s)), (snd (c_lossy s)); try discriminate; cbn;
+      rewrite ?orb_true_r; auto.
+  - destruct (t_busy (c_tgt s)); cbn; auto.
+  - destruct (t_busy (c_tgt s)); cbn; auto.
+Qed.
+
+(* ---- flat pipes, any schedule *)
+
+Record fl_inv (c : pcfg) (s : cfg) : Prop := {
+  fl_t : tgt_ok (p_n c) (c_tgt s);
+  fl_ls : length (c_src s) = p_n c;
+  fl_bag : c_bag s = [];
+  fl_eq : forall j, act (eventual c (c_tgt s)) j = act (c_src s) j
+}.
+
+Definition fl_inv' (c : pcfg) (s : cfg) : Prop := lossy s = true \/ fl_inv c s.
+
+Lemma fl_inv_mark : forall c s, fl_inv c s -> fl_inv c (mark s).
+Proof. intros c s [H1 H2 H3 H4]. constructor; auto. Qed.
+
+Lemma fl_inv_log : forall c s code, fl_inv c s -> fl_inv c (log_only s code).
+Proof. intros c s code [H1 H2 H3 H4]. constructor; auto. Qed.
+
+Lemma fl_src_call : forall c s k st args,
+  p_flat c = true -> p_addonly c = false ->
+  fl_inv c s -> st < p_n c ->
+  fl_inv' c (src_call c s k st args).
+Proof.
+  intros c s k st args Hf Hao [Ht Hls Hbag Heq] Hwf. unfold src_call.
+  destruct (src_op c (c_src s) k st) as [src' ev] eqn:Hop.
+  apply src_op_spec in Hop; [|lia]. destruct Hop as (Hlen & Hact & Hev).
+  destruct ev as [e|].
+  - destruct Hev as [-> Hst']. rewrite Hf.
+    set (t := c_tgt s) in *.
+    destruct (target_idle t && _) eqn:Hskip.
+    + (* skipped on an idle target that agrees *)
+      right. apply andb_true_iff in Hskip. destruct Hskip as [Hidle Hag].
+      unfold target_idle in Hidle. apply andb_true_iff in Hidle. destruct Hidle as [Hq Hb].
+      apply negb_true_iff in Hb. destruct (t_queue t) eqn:Eq; [|discriminate].
+      destruct (to_idle _ _ Ht Hb) as [_ Hp].
+      constructor; cbn; auto; try lia.
+      intro j. rewrite Hact. specialize (Heq j).
+      rewrite (eventual_idle c t) in * by auto.
+      destruct (Nat.eqb_spec j st) as [->|Hne]; auto.
+      destruct k; cbn [is_add]; auto;
+        try (destruct (act (t_ticks t) st); simpl in *; congruence).
+    + set (m := {| m_kind := k; m_st := st; m_args := false |}).
+      destruct (lossy_early t m || lossy_dup c t m) eqn:Hl.
+      * left. destruct (deliver c t m). unfold lossy. cbn.
+        apply orb_true_iff in Hl. destruct Hl as [Hl|Hl]; rewrite Hl;
+          rewrite ?orb_true_r; auto; try (destruct (fst (c_lossy s)); auto).
+      * right. apply orb_false_iff in Hl. destruct Hl as [Hl1 Hl2].
+        destruct (deliver_eventual c t m (p_n c) Ht Hwf Hl1 Hl2) as [D1 D2].
+        destruct (deliver c t m) as [t' r]. cbn [fst] in *.
+        constructor; cbn; auto; try lia.
+        intro j. rewrite D2, Hact. cbn [m_st m_kind m].
+        destruct (Nat.eqb j st); auto.
+  - destruct Hev as [Hsame|[Hx _]]; [|congruence].
+    right. constructor; cbn; auto; try lia.
+    intro j. rewrite Hsame. apply Heq.
+Qed.
+
+Lemma fl_step : forall c s st,
+  p_flat c = true -> p_addonly c = false ->
+  fl_inv' c s -> step_wf (p_n c) st = true ->
+  fl_inv' c (exec_step c s st).
+Proof.
+  intros c s st Hf Hao [Hl|I] Hwf.
+  { left. apply lossy_sticky. auto. }
+  pose proof I as [Ht Hls Hbag Heq].
+  destruct st; unfold exec_step.
+  - unfold step_wf in Hwf. apply Nat.ltb_lt in Hwf.
+    destruct (c_blocked s); [right; apply fl_inv_log; auto|]. apply fl_src_call; auto.
+  - destruct (c_blocked s); right; [apply fl_inv_log|apply fl_inv_mark, fl_inv_log]; auto.
+  - unfold step_wf in Hwf. apply Nat.ltb_lt in Hwf.
+    destruct (c_blocked s); [right; apply fl_inv_log; auto|].
+    destruct (veto_hits c s how k st); [right; apply fl_inv_mark, fl_inv_log; auto|].
+    destruct (fl_src_call c s k st args Hf Hao I Hwf) as [L|L].
+    + left. exact L.
+    + right. apply fl_inv_mark. auto.
+  - unfold step_wf in Hwf. apply Nat.ltb_lt in Hwf.
+    destruct (c_blocked s); [right; apply fl_inv_log; auto|].
+    destruct veto; [right; apply fl_inv_mark, fl_inv_log; auto|].
+    apply fl_src_call; auto.
+  - right. rewrite Hbag. destruct i; cbn; auto.
+  - destruct (t_busy (c_tgt s)) eqn:Eb; [|right; auto].
+    right. destruct (release_eventual c (c_tgt s) (p_n c) Ht) as [R1 R2].
+    constructor; cbn; auto. intro j. rewrite R2. auto.
+  - destruct (t_busy (c_tgt s)) eqn:Eb; [right; auto|].
+    right. destruct (hold_eventual c (c_tgt s) (p_n c) Ht Eb) as [R1 R2].
+    constructor; unfold set_tgt; cbn [c_tgt c_src c_bag]; auto. intro j. rewrite R2. auto.
+Qed.
+
+Lemma init_tgt_ok : forall n, tgt_ok n (init_tgt n).
+Proof. intro n. constructor; cbn; auto. apply repeat_length. Qed.
+
+Lemma fold_invariant' : forall (c : pcfg) (I : cfg -> Prop) (ok : step -> bool),
+  (forall s st, I s -> ok st = true -> I (exec_step c s st)) ->
+  forall steps s, I s -> forallb ok steps = true ->
+  I (fold_left (exec_step c) steps s).
+Proof. exact fold_invariant. Qed.
+
+Lemma quiescent_eventual : forall c s, tgt_ok (p_n c) (c_tgt s) -> quiescent s = true ->
+  c_bag s = [] /\ eventual c (c_tgt s) = t_ticks (c_tgt s).
+Proof.
+  intros c s Ht Hq. unfold quiescent in Hq.
+  repeat (apply andb_true_iff in Hq; destruct Hq as [Hq ?]).
+  apply negb_true_iff in H1.
+  destruct (c_bag s); [|discriminate]. split; auto.
+  destruct (to_idle _ _ Ht H1) as [Hq' Hp]. apply eventual_idle; auto.
+Qed.
+
+Lemma flat_follows_unless_dropped_lemma : forall (c : pcfg) (steps : list step),
+  p_flat c = true -> p_addonly c = false ->
+  forallb (step_wf (p_n c)) steps = true ->
+  let r := run c steps in
+  c_lossy r = (false, false) ->
+  quiescent r = true ->
+  follows (p_n c) (c_src r) (t_ticks (c_tgt r)) = true.
+Proof.
+  intros c steps Hf Hao Hwf.
+  assert (I : fl_inv' c (run c steps)).
+  { unfold run. apply (fold_invariant c (fl_inv' c) (step_wf (p_n c))); auto.
+    - intros. apply fl_step; auto.
+    - right. constructor; cbn; auto using init_tgt_ok, repeat_length. }
+  cbv zeta. intros Hl Hq. destruct I as [L|[Ht _ _ Heq]].
+  { unfold lossy in L. rewrite Hl in L. discriminate. }
+  destruct (quiescent_eventual c _ Ht Hq) as [_ He].
+  apply follows_of_pointwise'. intro j. rewrite <- He. auto.
+Qed.
+
+(* ---- non-flat pipes, any schedule *)
+
+Record nfg_inv (c : pcfg) (s : cfg) : Prop := {
+  ng_t : tgt_ok (p_n c) (c_tgt s);
+  ng_ls : length (c_src s) = p_n c;
+  ng_bag : Forall (fun m => m_st m < p_n c) (c_bag s);
+  ng_eq : forall j, match last_ev j (c_bag s) with
+                    | Some k => act (c_src s) j = is_add k
+                    | None => act (eventual c (c_tgt s)) j = act (c_src s) j
+                    end
+}.
+
+Definition nfg_inv' (c : pcfg) (s : cfg) : Prop :=
+  lossy s = true \/ c_reord s = true \/ nfg_inv c s.
+
+Lemma nfg_inv_mark : forall c s, nfg_inv c s -> nfg_inv c (mark s).
+Proof. intros c s [H1 H2 H3 H4]. constructor; auto. Qed.
+
+Lemma nfg_inv_log : forall c s code, nfg_inv c s -> nfg_inv c (log_only s code).
+Proof. intros c s code [H1 H2 H3 H4]. constructor; auto. Qed.
+
+Lemma nfg_src_call : forall c s k st args,
+  p_flat c = false -> p_addonly c = false ->
+  nfg_inv c s -> st < p_n c ->
+  nfg_inv c (src_call c s k st args).
+Proof.
+  intros c s k st args Hf Hao [Ht Hls Hbag Heq] Hwf. unfold src_call.
+  destruct (src_op c (c_src s) k st) as [src' ev] eqn:Hop.
+  apply src_op_spec in Hop; [|lia]. destruct Hop as (Hlen & Hact & Hev).
+  destruct ev as [e|].
+  - destruct Hev as [-> Hst']. rewrite Hf.
+    constructor; cbn; auto; try lia.
+    + apply Forall_app. split; auto.
+    + intro j. rewrite last_ev_app. cbn [m_st m_kind].
+      destruct (Nat.eqb_spec st j) as [->|Hne]; auto.
+      specialize (Heq j). rewrite Hact.
+      destruct (Nat.eqb_spec j st); [congruence|]. auto.
+  - destruct Hev as [Hsame|[Hx _]]; [|congruence].
+    constructor; cbn; auto; try lia.
+    intro j. specialize (Heq j). rewrite Hsame. auto.
+Qed.
+
+Lemma nfg_step : forall c s st,
+  p_flat c = false -> p_addonly c = false ->
+  nfg_inv' c s -> step_wf (p_n c) st = true ->
+  nfg_inv' c (exec_step c s st).
+Proof.
+  intros c s st Hf Hao [Hl|[Hr|I]] Hwf.
+  { left. apply lossy_sticky. auto. }
+  { right. left. apply reord_sticky. auto. }
+  pose proof I as [Ht Hls Hbag Heq].
+  destruct st; unfold exec_step.
+  - unfold step_wf in Hwf. apply Nat.ltb_lt in Hwf. right. right.
+    destruct (c_blocked s); [apply nfg_inv_log; auto|]. apply nfg_src_call; auto.
+  - right. right.
+    destruct (c_blocked s); [apply nfg_inv_log|apply nfg_inv_mark, nfg_inv_log]; auto.
+  - unfold step_wf in Hwf. apply Nat.ltb_lt in Hwf. right. right.
+    destruct (c_blocked s); [apply nfg_inv_log; auto|].
+    destruct (veto_hits c s how k st); [apply nfg_inv_mark, nfg_inv_log; auto|].
+    apply nfg_inv_mark, nfg_src_call; auto.
+  - unfold step_wf in Hwf. apply Nat.ltb_lt in Hwf. right. right.
+    destruct (c_blocked s); [apply nfg_inv_log; auto|].
+    destruct veto; [apply nfg_inv_mark, nfg_inv_log; auto|].
+    apply nfg_src_call; auto.
+  - destruct (nth_error (c_bag s) i) as [m|] eqn:Hn; [|right; right; auto].
+    assert (Hm : m_st m < p_n c).
+    { apply nth_error_In in Hn. rewrite Forall_forall in Hbag. auto. }
+    destruct (older_same (c_bag s) i m) eqn:Hos.
+    { right. left. destruct (deliver c (c_tgt s) m). cbn. apply orb_true_r. }
+    destruct (lossy_early (c_tgt s) m || lossy_dup c (c_tgt s) m) eqn:Hl.
+    { left. destruct (deliver c (c_tgt s) m). unfold lossy. cbn.
+      apply orb_true_iff in Hl. destruct Hl as [Hl|Hl]; rewrite Hl;
+        rewrite ?orb_true_r; auto; try (destruct (fst (c_lossy s)); auto). }
+    right. right. apply orb_false_iff in Hl. destruct Hl as [Hl1 Hl2].
+    destruct (deliver_eventual c (c_tgt s) m (p_n c) Ht Hm Hl1 Hl2) as [D1 D2].
+    destruct (deliver c (c_tgt s) m) as [t' r]. cbn [fst] in *.
+    constructor; cbn; auto.
+    + apply Forall_remove_nth. auto.
+    + intro j. specialize (Heq j).
+      destruct (last_ev_remove i (c_bag s) m Hn Hos j) as [L1 L2].
+      rewrite D2. rewrite Nat.eqb_sym.
+      destruct (Nat.eqb (m_st m) j) eqn:E.
+      * specialize (L2 eq_refl).
+        destruct (last_ev j (remove_nth i (c_bag s))).
+        -- rewrite L2 in Heq. auto.
+        -- rewrite L2 in Heq. auto.
+      * rewrite L1 by auto. auto.
+  - destruct (t_busy (c_tgt s)) eqn:Eb; [|right; right; auto].
+    right. right. destruct (release_eventual c (c_tgt s) (p_n c) Ht) as [R1 R2].
+    constructor; cbn; auto. intro j. specialize (Heq j). rewrite R2. auto.
+  - destruct (t_busy (c_tgt s)) eqn:Eb; [right; right; auto|].
+    right. right. destruct (hold_eventual c (c_tgt s) (p_n c) Ht Eb) as [R1 R2].
+    constructor; unfold set_tgt; cbn [c_tgt c_src c_bag]; auto.
+    intro j. specialize (Heq j). rewrite R2. auto.
+Qed.
+
+Lemma nonflat_follows_unless_dropped_lemma : forall (c : pcfg) (steps : list step),
+  p_flat c = false -> p_addonly c = false ->
+  forallb (step_wf (p_n c)) steps = true ->
+  let r := run c steps in
+  c_reord r = false ->
+  c_lossy r = (false, false) ->
+  quiescent r = true ->
+  follows (p_n c) (c_src r) (t_ticks (c_tgt r)) = true.
+Proof.
+  intros c steps Hf Hao Hwf.
+  assert (I : nfg_inv' c (run c steps)).
+  { unfold run. apply (fold_invariant c (nfg_inv' c) (step_wf (p_n c))); auto.
+    - intros. apply nfg_step; auto.
+    - right. right. constructor; cbn; auto using init_tgt_ok, repeat_length. }
+  cbv zeta. intros Hr Hl Hq. destruct I as [L|[R|[Ht _ _ Heq]]].
+  { unfold lossy in L. rewrite Hl in L. discriminate. }
+  { congruence. }
+  destruct (quiescent_eventual c _ Ht Hq) as [Hb He].
+  apply follows_of_pointwise'. intro j. specialize (Heq j). rewrite Hb in Heq.
+  cbn in Heq. rewrite <- He. auto.
+Qed.
+
+(* held targets and overtaking across states, nothing dropped *)
+Example unless_dropped_nonvacuous :
+  let c := {| p_flat := false; p_addonly := false; p_n := 2; p_multiS := [false; false];
+              p_multiT := [false; true]; p_parks := [true; false; true] |} in
+  let steps := [SSrc MAdd 0 false; SSrc MAdd 1 false; SDel 1; SSrc MRem 1 true;
+                SDel 0; SDel 0; SRel; SRel] in
+  c_reord (run c steps) = false /\ c_lossy (run c steps) = (false, false) /\
+  quiescent (run c steps) = true /\ t_nparks (c_tgt (run c steps)) = 2.
+Proof. vm_compute. repeat split; reflexivity. Qed.
+
+Example flat_unless_dropped_nonvacuous :
+  let c := cfg1 true [] in
+  let steps := [SHold; SSrc MAdd 0 false; SSrc MRem 0 false; SRel] in
+  c_lossy (run c steps) = (false, false) /\ quiescent (run c steps) = true /\
+  c_busydel (run c steps) = true /\ t_ntx (c_tgt (run c steps)) = 3.
+Proof. vm_compute. repeat split; reflexivity. Qed.
